@@ -23,7 +23,7 @@ LEVEL = 'exploration'
 DECIDING = ['tap:Obs.export_jackknife', 'tap:Obs.export_bootstrap', 'tap:import_jackknife', 'tap:import_bootstrap',
             'export_jk_judged', 'export_bs_judged', 'import_jk_judged', 'import_bs_judged', 'seeded_tables_recomputed',
             'import_bs_rejections_required', 'jackknife_variance_identities', 'held_results_rechecked', 'history_requests',
-            'scale_relations', 'saved_tables_fed_back', 'imports_with_entry0_different_from_the_sample_mean', 'jackknife_matrix_products']
+            'scale_relations', 'saved_tables_fed_back', 'imports_with_entry0_different_from_the_sample_mean', 'jackknife_matrix_products', 'export_refusals_required', 'indistinguishable_copies_exported']
 RULE = ('cases: single-chain observables (names with and without replica part, non-ASCII name), length 5 / 6-30 / 31-500 (quick: import_bootstrap up to 120), '
         'configuration lists contiguous / strided / gapped / irregular given as range, list or ndarray, data white / AR(1) / constant / alternating / counts with exact zeros / '
         '1e-8 / 1e8 / distinct / magnitudes mixed over 12 decades; primary observables and derived ones (same chain, different lists); resampling tables: random, '
@@ -31,7 +31,7 @@ RULE = ('cases: single-chain observables (names with and without replica part, n
         'int64 / int32 / int16 / intp / uint8 / nested lists / tuples, C / Fortran / transposed / strided memory layout; sample, jackknife and bootstrap arrays also as strided and negative-stride views; '
         'configuration numbers starting at 0 and above 1e7; seeded export with 1..500 samples, with save_rng and the saved numbers fed back; histories (same name and sample number but other length, same length other name '
         'out of a prefix family, same name / length / first / last configuration but other interior and data; seeded, explicit-table and jackknife requests and re-analyses in random order, every result held and re-requested); '
-        'the same chain multiplied by 2^+-27, 2^+-60, 1e+-8, 1e+-15; every exported array is kept and re-checked after later calls; second hardening: observable and table compared with their state before every export (monitors), bootstrap arrays that do not belong to the table (one sample too few / too many) must be rejected, spectator observables with weight exactly zero in derived observables, int16 / uint16 tables for more than 255 configurations, imports with lists of equal length / first / last configuration but other members; counters judged:<mechanism> give the number of evaluations of every judgement; kind biased: arrays whose entry 0 is not the mean of the other entries (jackknife / bootstrap samples of non-linear functions, arbitrary entry 0), observables whose central value is not their replica mean (imported ones, observables derived from them, entries of jack_matmul / einsum products), imported, exported and re-imported twice. non-trivial: the chain has non-zero variance (or a rejection was required); '
+        'the same chain multiplied by 2^+-27, 2^+-60, 1e+-8, 1e+-15; every exported array is kept and re-checked after later calls; second hardening: observable and table compared with their state before every export (monitors), bootstrap arrays that do not belong to the table (one sample too few / too many) must be rejected, spectator observables with weight exactly zero in derived observables, int16 / uint16 tables for more than 255 configurations, imports with lists of equal length / first / last configuration but other members; counters judged:<mechanism> give the number of evaluations of every judgement; kind biased: arrays whose entry 0 is not the mean of the other entries (jackknife / bootstrap samples of non-linear functions, arbitrary entry 0), observables whose central value is not their replica mean (imported ones, observables derived from them, entries of jack_matmul / einsum products), imported, exported and re-imported twice. third hardening: exports of observables that are not on one chain (two replicas, two ensembles, chain + covariance input, covariance only) must be refused; chains with central value exactly 0.0; copies that the == and hash of the library cannot tell apart (shifted by 2^-40 of the scale, tagged) exported next to the original in both orders. non-trivial: the chain has non-zero variance (or a rejection was required); '
         'distinct = digest of (function, chain name, configuration list, data, table)')
 ASSUMPTIONS = ['default resampling table = numpy.random.default_rng(md5(chain name) & 0xFFFFFFFF).integers(0, N, (samples, N)) - the documented convention (docstring: "based on the md5 hash of the ensemble name"), adopted by the reference',
                'direct arithmetic compared at 1e-11 of max|sample|; import_jackknife (sum of N numbers minus (N-1) J_i) at 1e-12 N max|sample|; import_bootstrap (least squares) at 1e-11 cond max|sample|, tables with cond > 1e5 are not judged',
@@ -44,7 +44,7 @@ PE = None
 CTX = None
 REJECT = (ValueError, TypeError, LookupError)
 NAMES = ['A', 'AB', 'A1', 'A|r1', 'A|r2', 'ens|r10', 'B|r1', 'test', 'long_ensemble_name_b3.40_k0.1366|r001', 'Ä|r1', 'x y']
-DATA = gen.DATA_KINDS + ['mixedmag']
+DATA = gen.DATA_KINDS + ['mixedmag', 'zero-mean']
 
 
 def sample_scale(x, value=0.0):
@@ -245,7 +245,7 @@ def teardown(ctx):
 
 def plan(tier):
     m = 1 if tier == 'quick' else 40
-    return [('jk', 900 * m), ('bs_table', 600 * m), ('bs_seed', 450 * m), ('bs_import', 600 * m), ('derived', 300 * m), ('bs_reject', 150 * m),
+    return [('jk', 900 * m), ('bs_table', 600 * m), ('bs_seed', 450 * m), ('bs_import', 600 * m), ('derived', 300 * m), ('bs_reject', 250 * m),
             ('history', 120 * m), ('scale', 150 * m), ('biased', 330 * m)]
 
 
@@ -268,7 +268,17 @@ def make_chain(rng, n, lkind=None, dkind=None):
     start = 0 if u < 0.08 else (10 ** 7 + int(rng.integers(0, 1000)) if u < 0.16 else None)
     idl = gen.rand_idl(rng, n, lkind, start=start)
     cfgs = [int(c) for c in idl]
-    if dkind == 'mixedmag':
+    if dkind == 'zero-mean':
+        # central value exactly 0.0 with non-zero fluctuations: pairs +-d with d a multiple of 2^-10, every partial sum exact
+        half = (len(cfgs) + 1) // 2
+        d = rng.integers(1, 5000, size=half).astype(float) * 2.0 ** -10
+        x = np.empty(2 * half)
+        x[0::2] = d
+        x[1::2] = -d
+        x = x[:len(cfgs)]
+        if len(cfgs) % 2:
+            x[-1] = 0.0          # the pairs before it are complete: the sum stays exactly zero
+    elif dkind == 'mixedmag':
         x = rng.normal(size=len(cfgs)) * 10.0 ** rng.uniform(-6, 6, size=len(cfgs))
     else:
         x = gen.rand_data(rng, len(cfgs), dkind)
@@ -562,6 +572,32 @@ def case_bs_import(ctx, idx, rng):
 def case_bs_reject(ctx, idx, rng):
     n = int(rng.choice([5, 6, 9, 20, 60]))
     o, name, idl, cfgs, chain, lkind, dkind = make_obs(rng, n)
+    if idx % 5 == 4:
+        # the transforms are defined for one Monte-Carlo chain: an observable on two replicas, on two ensembles, with a covariance
+        # input next to the chain, or made of a covariance input only must be refused, not exported as if it were one chain
+        what = ['two-replicas', 'two-ensembles', 'chain+covariance', 'covariance-only'][(idx // 5) % 4]
+        base = name.split('|')[0]
+        if what == 'two-replicas':
+            m = PE.Obs([rng.normal(size=n), rng.normal(size=n + 1)], [base + '|r1', base + '|r2'])
+        elif what == 'two-ensembles':
+            m = o + PE.Obs([rng.normal(size=n)], [base + 'x'])
+        elif what == 'chain+covariance':
+            m = o + PE.cov_Obs(0.3, 0.01, 'cvR')
+        else:
+            m = PE.cov_Obs(0.3, 0.01, 'cvR')
+        ctx.cell('export', 'refusal', what)
+        for fn, call in (('export_jackknife', lambda: m.export_jackknife()), ('export_bootstrap', lambda: m.export_bootstrap(samples=7)),
+                         ('export_bootstrap', lambda: m.export_bootstrap(3, random_numbers=np.zeros((3, n), dtype=int)))):
+            ctx.ev()
+            ctx.count('judged:%s:accepted-an-observable-that-is-not-on-one-chain' % fn)
+            ctx.count('export_refusals_required')
+            try:
+                got = call()
+            except REJECT:
+                continue
+            ctx.violation('%s:accepted-an-observable-that-is-not-on-one-chain' % fn, {'observable': what, 'names': list(m.names), 'returned_head': np.asarray(got)[:4]})
+        ctx.nontrivial.add(digest('export-refusal', what, n, name))
+        return
     if idx % 3 == 2:
         # as many rows as needed, but one bootstrap sample too few / too many for the table: the pair does not belong together
         k = int(rng.choice([n, n + 2, 2 * n]))
@@ -665,6 +701,21 @@ def case_history(ctx, idx, rng):
     pool.append((PE.Obs([rng.normal(size=n1) * 3 + 1], [na], idl=[twin_cfgs]), na))
     first = PE.Obs([rng.normal(size=n1)], [na], idl=[list(range(span[0], span[0] + n1 - 1)) + [span[-1]]])
     pool.append((first, na))
+    # copies the library's own == and hash cannot tell apart from pool[0]: every sample shifted by 1e-12 of the scale, and an identical copy with a tag
+    x0 = np.array([chain[c] for c in cfgs])
+    shift = 2.0 ** -40 * max(1.0, float(np.max(np.abs(x0))))
+    shifted = PE.Obs([x0 + shift], [na], idl=[cfgs])
+    tagged = PE.Obs([x0.copy()], [na], idl=[cfgs])
+    tagged.tag = 'copy'
+    t_eq = rng.integers(0, n1, size=(4, n1))
+    for first_ in ((pool[0][0], shifted, tagged), (shifted, tagged, pool[0][0]))[idx % 2]:
+        first_.export_jackknife()
+        first_.export_bootstrap(4, random_numbers=t_eq)          # whatever a cache would remember, in both orders
+    for fn in (lambda q: q.export_jackknife(), lambda q: q.export_bootstrap(4, random_numbers=t_eq), lambda q: q.export_bootstrap(samples=4)):
+        a0, a1, a2 = fn(pool[0][0]), fn(shifted), fn(tagged)
+        ctx.count('indistinguishable_copies_exported')
+        ctx.close(a1 - a0, np.full(len(a0), shift), 'export:copy-shifted-by-1e-12-exported-as-the-original', 'difference of the exports', rtol=1e-3, scale=shift, atol=0.0)
+        ctx.require(np.array_equal(a2, a0), 'export:tagged-copy-exported-differently', None)
     ks = [3, 17]
     requests = []
     for _ in range(14):
